@@ -788,6 +788,46 @@ func (e *Engine) exec(st *State, fr *frame, b, pred *ssa.BasicBlock, idx, depth 
 			case *ssa.Panic:
 				return []Outcome{{Kind: "panic", St: st, Ret: e.val(st, fr, in.X), Pos: in.Pos(), Why: valKey(e.val(st, fr, in.X))}}
 			case *ssa.RunDefers:
+				// the deferred calls run now, last first, on the state reached so far
+				// (recover() reports no panic: panicking paths end where they panic)
+				if len(fr.defers) == 0 {
+					break
+				}
+				type pend struct {
+					st *State
+					fr *frame
+				}
+				cur := []pend{{st, fr}}
+				var outs []Outcome
+				for k := len(fr.defers) - 1; k >= 0; k-- {
+					d := fr.defers[k]
+					var nxt []pend
+					for _, c := range cur {
+						results := e.doCall(c.st, c.fr, d, depth)
+						for ri, res := range results {
+							if res.Kind != "value" {
+								outs = append(outs, res)
+								continue
+							}
+							f2 := c.fr
+							if ri < len(results)-1 {
+								f2 = c.fr.clone()
+							}
+							nxt = append(nxt, pend{res.St, f2})
+						}
+					}
+					cur = nxt
+				}
+				if len(cur) == 1 && len(outs) == 0 {
+					st, fr = cur[0].st, cur[0].fr
+					fr.defers = nil
+					break
+				}
+				for _, c := range cur {
+					c.fr.defers = nil
+					outs = append(outs, e.exec(c.st, c.fr, b, pred, i+1, depth)...)
+				}
+				return outs
 			case *ssa.Defer:
 				fr.defers = append(fr.defers, in)
 			case *ssa.Go, *ssa.Select, *ssa.Send:
